@@ -99,6 +99,30 @@ theorem stepTake_norz {s s' : State} {i : Nat} {pc : TPc} {o : Obj} {add : Bool}
     | (refine ⟨?_, ?_, ?_, ?_⟩ <;> frame_simp h <;>
         first | omega | assumption | (split <;> omega) | simp_all)
 
+theorem stepTakePanic_norz {s s' : State} {i : Nat} {o : Obj} {add : Bool}
+    (h : s.ops[i]? = some (.take .detach o add)) (a : NoRz s)
+    (hs : stepTakePanic s i o = some s') : NoRz s' ∧ s'.cfg = s.cfg := by
+  obtain ⟨a1, a2, a3, a4⟩ := a
+  simp only [stepTakePanic, Option.some.injEq] at hs
+  subst hs
+  refine ⟨?_, ?_⟩
+  all_goals first
+    | (frame_simp h; done)
+    | (refine ⟨?_, ?_, ?_, ?_⟩ <;> frame_simp h <;>
+        first | omega | assumption | (split <;> omega) | simp_all)
+
+theorem stepRetPanic_norz {s s' : State} {i : Nat} {o : Obj}
+    (h : s.ops[i]? = some (.ret .detach o)) (a : NoRz s)
+    (hs : stepRetPanic s i o = some s') : NoRz s' ∧ s'.cfg = s.cfg := by
+  obtain ⟨a1, a2, a3, a4⟩ := a
+  simp only [stepRetPanic, Option.some.injEq] at hs
+  subst hs
+  refine ⟨?_, ?_⟩
+  all_goals first
+    | (frame_simp h; done)
+    | (refine ⟨?_, ?_, ?_, ?_⟩ <;> frame_simp h <;>
+        first | omega | assumption | (split <;> omega) | simp_all)
+
 theorem stepRetain_norz {s s' : State} {i : Nat} {keep : List Bool}
     (h : s.ops[i]? = some (.retain keep)) (a : NoRz s)
     (hs : stepRetain s i keep = some s') : NoRz s' ∧ s'.cfg = s.cfg := by
@@ -133,12 +157,18 @@ theorem stepOp_norz {s s' : State} {i : Nat} {oc : Outcome} (a : NoRz s)
       simp only at hs
       split at hs
       · exact stepRet_norz h a hs
-      · simp at hs
+      · split at hs
+        · have := retPanic_pc ‹_›; subst this
+          exact stepRetPanic_norz h a hs
+        · simp at hs
     | take pc o add =>
       simp only at hs
       split at hs
       · exact stepTake_norz h a hs
-      · simp at hs
+      · split at hs
+        · have := takePanic_pc ‹_›; subst this
+          exact stepTakePanic_norz h a hs
+        · simp at hs
     | resize n c pc old =>
       exfalso
       have := sumW_mem_le Op.rzW _ _ _ h
